@@ -60,7 +60,28 @@ func genC16Case(t *rapid.T) *StructCase {
 	if rapid.IntRange(0, 3).Draw(t, "mode") > 0 {
 		c = genNamedCase(t, namedOpts{roots: []string{"Top", "Mid", "Tree"}, marks: []string{"required", "exist", "required", "-"},
 			msgMode: 3, maxDepth: 3, density: 5, extra: c16Names, unscoped: true,
-			topShapes: []string{"ptr", "ptr", "ptr", "val", "ptrptr"}})
+			topShapes: []string{"ptr", "ptr", "ptr", "val", "ptrptr", "slice", "sliceptr", "mapstr", "mapint", "arrayval"}})
+		if c.Root.K == "slice" || c.Root.K == "map" || c.Root.K == "array" {
+			// a top-level collection: every element resolves rule names like a single struct does.
+			// (What "outermost" means for an unscoped rule set is then undecided: per-type sets only.)
+			c.Unscoped = nil
+			if c.PerType == nil {
+				c.PerType = map[string]map[string]string{}
+			}
+			if c.PerType[rootOf(c)] == nil {
+				c.PerType[rootOf(c)] = map[string]string{}
+			}
+			// either / botheq groups among the elements' fields: their bookkeeping shares the per-call state with the function table
+			for k, v := range genGroupRM(t, lib.Types[rootOf(c)], 10) {
+				if c.PerType[rootOf(c)][k] == "" {
+					c.PerType[rootOf(c)][k] = v
+				} else {
+					c.PerType[rootOf(c)][k] += "," + v
+				}
+			}
+			// and a name given for the call on a field of every element
+			c.PerType[rootOf(c)]["Name"] = strings.TrimPrefix(c.PerType[rootOf(c)]["Name"]+","+rapid.SampledFrom(c16Names[:5]).Draw(t, "elemName"), ",")
+		}
 		// partially overlapping / empty per-type sets
 		for name := range c.PerType {
 			switch rapid.IntRange(0, 6).Draw(t, "rmShape-"+name) {
@@ -90,6 +111,8 @@ func genC16Case(t *rapid.T) *StructCase {
 			return r
 		}
 		ty, _ := g.genStruct(0)
+		// either / botheq groups: their bookkeeping shares the per-call state with the function table
+		walkTypes(&ty, func(st *desc.T) { addGroups(t, st, g.tag) })
 		c = &StructCase{Root: desc.Ptr(ty), Val: desc.V{E: []desc.V{g.genValueFor(ty, 0)}}}
 		if g.tag != "valid" {
 			c.Tag = g.tag
